@@ -64,8 +64,27 @@ class Pool(object):
             self.seqinfo[sid] = info
             if info.supported and 1 <= info.n_expanded <= max_expanded:
                 self.seqs.append(sid)
+        # small sequences with the numeric elements (not class 31) they reach: for 203YYY over a member of a sequence
+        self.small_seq_numeric = {}
+        for sid in self.seqs:
+            if self.seqinfo[sid].n_expanded <= 16:
+                nums = sorted(set(self._numeric_members(sid, set())))
+                if nums:
+                    self.small_seq_numeric[sid] = nums
         # undefined local element ids for 206
         self.local_undefined = [i for i in (48001, 50200, 63255, 1192 + 60000) if i not in B]
+
+    def _numeric_members(self, sid, seen):
+        out = []
+        for i in self.tables.D[sid][1]:
+            f = i // 100000
+            if f == 3 and i in self.tables.D and i not in seen:
+                out.extend(self._numeric_members(i, seen | {i}))
+            elif f == 0 and i in self.tables.B and i // 1000 not in (0, 31):
+                e = self.tables.B[i]
+                if e.kind == 'num' and not e.sut_numeric_codeish and 1 <= e.nbits <= 32:
+                    out.append(i)
+        return out
 
     def _seq_info(self, sid, cache):
         info = SeqInfo()
